@@ -2461,6 +2461,13 @@ impl Compiler {
             .builder
             .add_constant(super::bytecode::Constant::Chunk(Rc::new(chunk)))?;
 
+        // A named function expression can refer to itself by its own name: the name is bound
+        // in a scope of its own that only the function's closure sees.
+        let self_name = func.id.as_ref().map(|id| id.name.cheap_clone());
+        if self_name.is_some() {
+            self.builder.emit(Op::PushScope);
+        }
+
         // Emit the appropriate closure creation opcode
         if func.generator && func.async_ {
             self.builder
@@ -2471,6 +2478,16 @@ impl Compiler {
             self.builder.emit(Op::CreateAsync { dst, chunk_idx });
         } else {
             self.builder.emit(Op::CreateClosure { dst, chunk_idx });
+        }
+
+        if let Some(self_name) = self_name {
+            let name_idx = self.builder.add_string(self_name)?;
+            self.builder.emit(Op::DeclareVar {
+                name: name_idx,
+                init: dst,
+                mutable: false,
+            });
+            self.builder.emit(Op::PopScope);
         }
 
         Ok(())
